@@ -164,15 +164,14 @@ func c06(c *Ctx) {
 				if l.T.Kind != core.KLt || l.Pos {
 					continue
 				}
-				// !(0 < limit)  or  !(limit < sum)
-				if z, isC := l.T.Args[0].Int64(); isC && z == 0 {
-					if _, isL := fieldLoad(l.T.Args[1], rd.readLimit); isL {
-						limOK = true
-					}
-				}
+				// !(limit < sum)
 				if _, isL := fieldLoad(l.T.Args[0], rd.readLimit); isL && l.T.Args[1] == sum {
 					limOK = true
 				}
+			}
+			// or the limit is known to be disabled: limit < 1
+			if knowsLt(p, len(p.Lits), 1, func(y *core.Term) bool { _, isL := fieldLoad(y, rd.readLimit); return isL }) {
+				limOK = true
 			}
 			if !limOK {
 				okC, whyC = false, "a data frame can be returned at "+c.P.Pos(p.Ret.Pos())+" without the strict comparison of the running sum against Conn.readLimit"
